@@ -5,7 +5,7 @@ open Lean EupsModel EupsModel.Drv EupsModel.Deps
 
 /-! JSON <-> model values for C13 (also used by the C14 handler). -/
 
-def depOfJson (j : Json) : Except String Dep := do
+def depOfJson (tagged : List ((Str × Str) × Str)) (j : Json) : Except String Dep := do
   let k ← (← j.getObjVal? "k").getStr?
   let (uns, opt) ← match k with
     | "req" => pure (false, false)
@@ -19,17 +19,31 @@ def depOfJson (j : Json) : Except String Dep := do
   let flag (k : String) : Bool := match j.getObjVal? k with
     | .ok (Json.bool b) => b
     | _ => false
-  pure { unsetup := uns, optional := opt, name := ← jstr j "n", ver := ← jstrOpt j "v", noRec := j',
-         external := flag "external" }
+  let tag ← match j.getObjVal? "t" with
+    | .ok (Json.str t) => pure (some (Str.ofString t))
+    | _ => pure none
+  let d : Dep := { unsetup := uns, optional := opt, name := ← jstr j "n", ver := ← jstrOpt j "v", noRec := j',
+                   external := flag "external" }
+  pure (applyLineTag tagged d tag)
 
 def dbOfJson (g : Json) : Except String Db := do
   let ps ← jarr g "products"
   let mut decls : List Decl := []
   let mut cur : List (Str × Str) := []
+  -- (product, tag) ↦ version, for the `-t TAG` lines
+  let mut tagged : List ((Str × Str) × Str) := []
   for p in ps do
     let n ← jstr p "name"
     let v ← jstr p "version"
-    let deps ← (← jarr p "deps").mapM depOfJson
+    let tags ← match p.getObjVal? "tags" with
+      | .ok t => do pure ((← t.getArr?).toList)
+      | .error _ => pure []
+    for t in tags do
+      tagged := tagged ++ [((n, Str.ofString (← t.getStr?)), v)]
+  for p in ps do
+    let n ← jstr p "name"
+    let v ← jstr p "version"
+    let deps ← (← jarr p "deps").mapM (depOfJson tagged)
     let missing := match p.getObjVal? "missing" with
       | .ok (Json.bool b) => b
       | _ => false
